@@ -3,7 +3,8 @@
    The model (Model/Vcf.v, Model/VBaf.v) works on the structured VCF pysam hands
    to the code; literal numbers below are those of the property text. *)
 From CNV Require Import Base.Prelude Base.Str Model.Vcf Model.VBaf Spec.Vcf
-  Proofs.VcfLib Proofs.Vcf Proofs.VBaf.
+  Proofs.VcfLib Proofs.Vcf Proofs.VBaf Proofs.VBafLib Proofs.FnVary.
+From CNV Require Gen.FnVary Gen.FnHet Gen.FnVcfRead Gen.FnCallBaf Gen.FnFormatsVcfio.
 
 (* ---- C18_rows: one row per record, fields as defined ---------------------- *)
 
@@ -398,3 +399,283 @@ Proof. vm_compute. reflexivity. Qed.
 Example ex_empty_file :
   read_vcf ex_header [] SelNone SelNone (Some 20) false true = Ok {| t_paired := true; t_rows := [] |}.
 Proof. reflexivity. Qed.
+
+(* ======================================================================================================
+   Extension: source ties (function bodies regenerated from /repo on every run, Gen/FnVary.v, Gen/FnHet.v,
+   Gen/FnVcfRead.v, Gen/FnCallBaf.v), TumorBoost edges and range, any summary function, where the majority
+   direction is taken, load_het_snps as one decision table.
+   ====================================================================================================== *)
+Local Open Scope Q_scope.
+
+(* ---- C18_source_*: the Python bodies, translated, ARE the model functions ----------------------------- *)
+
+(* _tumor_boost per element (lt_mask = t_freqs < n_freqs; out[lt] = 0.5 t / n; out[~lt] = 1 - 0.5 (1 - t) / (1 - n)):
+   equal to the model's boost_q on all finite inputs except where the `otherwise` branch divides by zero ... *)
+Theorem C18_source_tumor_boost : forall t n,
+  (t < n \/ ~ n == 1) -> exists q, boost_q t n = Fin q /\ q == Gen.FnVary.fn_tumor_boost t n.
+Proof. exact fn_tumor_boost_eq. Qed.
+
+(* ... i.e. n == 1 (then t >= 1): numpy gives NaN for t == 1 and +inf for t > 1, and so does the model;
+   the generated definition carries Coq's totalised x / 0 = 0 and is 1 there *)
+Theorem C18_source_tumor_boost_singular : forall t n,
+  n == 1 -> ~ t < n ->
+  boost_q t n = (if Qeq_bool (qsub 1 t) 0 then XNaN else PInf) /\ Gen.FnVary.fn_tumor_boost t n == 1.
+Proof. exact fn_tumor_boost_singular. Qed.
+
+(* _mirrored_baf per element given above_half: 1/2 +- |v - 1/2| as the model mirrors; NaN stays NaN;
+   `vals.median() > 0.5` is the majority direction when above_half is None *)
+Theorem C18_source_mirror : forall v above m,
+  match Gen.FnVary.fn_mirrored_baf (Some v) above m with
+  | Some q => q == mirror above v
+  | None => False
+  end.
+Proof. exact fn_mirrored_baf_eq. Qed.
+
+Theorem C18_source_mirror_nan : forall above m, Gen.FnVary.fn_mirrored_baf None above m = None.
+Proof. exact fn_mirrored_baf_nan. Qed.
+
+Theorem C18_source_mirror_direction : forall vals,
+  majority_above vals =
+  match median vals with Some m => Gen.FnVary.fn_mirror_direction m | None => false end.
+Proof. exact fn_mirror_direction_eq. Qed.
+
+(* call.rescale_baf with its default normal_baf (the same generated definition C02 is tied to) *)
+Theorem C18_source_rescale : forall p o,
+  rescale_baf p o == Gen.FnCallBaf.fn_rescale_baf p o (1 # 2).
+Proof. exact fn_rescale_eq. Qed.
+
+(* zygosity_from_freq per element: 0.5 by default, `>= hom_freq` -> 1.0, then `< het_freq` -> 0.0 *)
+Theorem C18_source_zygosity_from_freq : forall f het hom,
+  Gen.FnVary.fn_zygosity_from_freq f het hom = zyg_from_freq het hom (Fin f) /\
+  Gen.FnVary.fn_zygosity_from_freq f het hom =
+    (if Qlt_bool f het then 0 else if Qle_bool hom f then 1 else 1 # 2).
+Proof. intros f het hom. split; [apply fn_zygosity_from_freq_eq | reflexivity]. Qed.
+
+(* heterozygous(): (zygosity != 0.0) & (zygosity != 1.0); load_het_snps: (zygosity != 0.0) & (n_zygosity == 0.0) *)
+Theorem C18_source_het_mask : forall z, Gen.FnVary.fn_het_mask z = is_het_z z.
+Proof. exact fn_het_mask_eq. Qed.
+
+Theorem C18_source_somatic_mask : forall r,
+  inferred_somatic r =
+  match v_n r with Some n => Gen.FnHet.fn_somatic_mask (g_zyg (v_t r)) (g_zyg n) | None => false end.
+Proof. exact fn_somatic_mask_eq. Qed.
+
+(* read_vcf: table["alt_freq"] = table["alt_count"] / table["depth"], then fillna(0.0) (the paired normal's
+   columns go through the same expression): the model's frequency, except a non-zero count at depth 0,
+   where numpy's +inf (which fillna leaves) is the model's PInf and Coq's division is 0 *)
+Theorem C18_source_alt_freq : forall c d,
+  match freq_of c d with
+  | Fin q => q == Gen.FnVcfRead.fn_alt_freq (ocell c) (ocell d)
+  | PInf => exists c', c = Some c' /\ c' <> 0%Z /\ d = Some 0%Z
+  | XNaN => False
+  end.
+Proof. exact fn_alt_freq_eq. Qed.
+
+Theorem C18_source_n_alt_freq : forall c d, Gen.FnVcfRead.fn_n_alt_freq c d = Gen.FnVcfRead.fn_alt_freq c d.
+Proof. exact fn_n_alt_freq_same. Qed.
+
+(* _extract_genotype: len(gts) > 1 -> 0.5; gts.pop() == 0 -> 0.0; else 1.0 *)
+Theorem C18_source_zygosity : forall gt a rest,
+  dedup gt = Some a :: rest ->
+  zygosity_of gt = Gen.FnVcfRead.fn_zygosity (Z.of_nat (length (dedup gt))) a.
+Proof. exact fn_zygosity_eq. Qed.
+
+(* _get_alt_count, AD given as a tuple: AD[1] when there are two values, else 0 *)
+Theorem C18_source_alt_count : forall r c a,
+  r_has_ad r = true -> ad_is_missing (s_ad c) = false ->
+  ((1 < Z.of_nat (length (s_ad c)))%Z -> nth 1 (s_ad c) None = Some a) ->
+  exists z, alt_count_of r c = Some z /\
+            inject_Z z == Gen.FnVcfRead.fn_ad_alt (Z.of_nat (length (s_ad c))) (inject_Z a).
+Proof. exact fn_ad_alt_eq. Qed.
+
+(* _get_end with `"END" in info` False (pysam keeps the reserved END out of record.info): start + len(alt) *)
+Theorem C18_source_get_end : forall start alt info_end e,
+  get_end start alt info_end = Gen.FnFormatsVcfio.fn_get_end start false e (Z.of_nat (String.length alt)).
+Proof. exact fn_get_end_model. Qed.
+
+(* ---- C18_boost_edges / C18_boost_range ------------------------------------------------------------------ *)
+
+(* boost_ieee evaluates the two-branch formula the way numpy does (x / +0 = +-inf, 0 / 0 = NaN, NaN
+   propagates, NaN < x is False); on finite inputs it IS the model's boost_q, except for a negative tumour
+   frequency over a normal frequency of 0 *)
+Theorem C18_boost_ieee_finite : forall t n,
+  ~ (t < n /\ n == 0) -> xr_eq (boost_ieee (RFin t) (RFin n)) (xr_of_xq (boost_q t n)).
+Proof. exact boost_ieee_finite. Qed.
+
+(* what the code returns on the edges: normal frequency exactly 0 -> (1 + t)/2 (t >= 0; -inf for t < 0);
+   exactly 1 -> t/2 below, NaN at t = 1, +inf above; t = n (not 1) -> exactly 1/2; a missing t or n -> NaN;
+   an infinite t -> +inf (normal <= 1) / -inf (normal > 1) / NaN (both infinite); an infinite n -> 0 *)
+Theorem C18_boost_edges :
+  (forall t n, n == 0 -> 0 <= t -> xr_eq (boost_ieee (RFin t) (RFin n)) (RFin ((1 + t) / 2))) /\
+  (forall t n, n == 0 -> t < 0 -> boost_ieee (RFin t) (RFin n) = RNInf) /\
+  (forall t n, n == 1 -> t < 1 -> xr_eq (boost_ieee (RFin t) (RFin n)) (RFin (t / 2))) /\
+  (forall t n, n == 1 -> t == 1 -> boost_ieee (RFin t) (RFin n) = RNaN) /\
+  (forall t n, n == 1 -> 1 < t -> boost_ieee (RFin t) (RFin n) = RPInf) /\
+  (forall t n, t == n -> ~ n == 1 -> xr_eq (boost_ieee (RFin t) (RFin n)) (RFin (1 # 2))) /\
+  (forall x, boost_ieee RNaN x = RNaN /\ boost_ieee x RNaN = RNaN) /\
+  (forall n, (n <= 1 -> boost_ieee RPInf (RFin n) = RPInf) /\ (1 < n -> boost_ieee RPInf (RFin n) = RNInf)) /\
+  boost_ieee RPInf RPInf = RNaN /\
+  (forall t, xr_eq (boost_ieee (RFin t) RPInf) (RFin 0)).
+Proof. exact boost_edges. Qed.
+
+(* the IEEE layer (used where a table holds inf / NaN cells) agrees with the finite model wherever both speak:
+   the mirror per element, Series.median of finite values, and VariantArray.mirrored_baf of a table whose
+   frequencies are all finite *)
+Theorem C18_ieee_mirror : forall above v,
+  xr_eq (mirror_ieee above (RFin v)) (xr_of_xq (mirror_x above (Fin v))).
+Proof. exact mirror_ieee_fin. Qed.
+
+Theorem C18_ieee_median : forall l,
+  median_r (map RFin l) = match median l with Some m => RFin m | None => RNaN end.
+Proof. exact median_r_RFin. Qed.
+
+Theorem C18_ieee_mirrored_baf : forall paired rows ah qs,
+  map (fun lr => g_freq (v_t (snd lr))) rows = map Fin qs ->
+  Forall2 xr_eq (mirrored_baf_r paired rows ah false) (map xr_of_xq (mirrored_baf paired rows ah false)).
+Proof. exact mirrored_baf_r_finite. Qed.
+
+(* frequencies in [0,1], normal strictly inside: the boosted value is a frequency again, and it is exactly
+   1/2 iff tumour and normal agree *)
+Theorem C18_boost_range : forall t n,
+  0 <= t -> t <= 1 -> 0 < n -> n < 1 ->
+  exists q, boost_q t n = Fin q /\ 0 <= q /\ q <= 1 /\ (q == 1 # 2 <-> t == n).
+Proof. exact boost_range. Qed.
+
+(* ---- baf_by_ranges with any summary_func ------------------------------------------------------------------ *)
+
+(* the default (np.nanmedian) is the instance nanmedian_x of the general form *)
+Theorem C18_baf_general : forall paired rows ranges ah boost,
+  baf_by_ranges paired rows ranges ah boost = baf_by_ranges_gen nanmedian_x paired rows ranges ah boost.
+Proof. exact baf_by_ranges_general. Qed.
+
+(* any summary function f: one value per range, in order, from the hits of that range *)
+Theorem C18_baf_general_per_range : forall f paired rows ranges ah boost,
+  ranges <> [] ->
+  baf_by_ranges_gen f paired rows ranges ah boost =
+    Some (map (fun rg => gen_value f ah (hits_of (baf_source paired rows boost) rg)) ranges).
+Proof. exact baf_by_ranges_gen_shape. Qed.
+
+(* ... no hit: missing; ONE hit: that frequency without calling f (mirrored only when a side was requested);
+   more: f of the frequencies mirrored to the requested side, else to the side of THEIR OWN majority *)
+Theorem C18_baf_general_cases : forall f ah,
+  gen_value f ah [] = XNaN /\
+  (forall x, gen_value f ah [x] = match ah with Some b => mirror_x b x | None => x end) /\
+  (forall x y t, gen_value f ah (x :: y :: t) =
+     f (map (mirror_x (match ah with Some b => b | None => majority_above (finite_of (x :: y :: t)) end))
+            (x :: y :: t))).
+Proof. exact gen_value_cases. Qed.
+
+Theorem C18_baf_nanmean : forall qs,
+  qs <> [] -> exists m, nanmean_x (map Fin qs) = Fin m /\ m == qsum qs / inject_Z (Z.of_nat (length qs)).
+Proof. exact nanmean_x_Fin. Qed.
+
+Theorem C18_baf_nanmin : forall qs,
+  qs <> [] -> exists m, nanmin_x (map Fin qs) = Fin m /\ Forall (fun y => m <= y) qs.
+Proof. exact nanmin_x_Fin. Qed.
+
+Theorem C18_baf_nanmax : forall qs,
+  qs <> [] -> exists m, nanmax_x (map Fin qs) = Fin m /\ Forall (fun y => y <= m) qs.
+Proof. exact nanmax_x_Fin. Qed.
+
+(* ---- C18_majority_direction --------------------------------------------------------------------------------- *)
+
+(* baf_by_ranges(above_half=None) takes the direction PER RANGE: from the median of the heterozygous
+   frequencies inside that range, not of the whole table *)
+Theorem C18_majority_direction : forall paired rows ranges boost,
+  ranges <> [] ->
+  baf_by_ranges paired rows ranges None boost =
+    Some (map (fun rg => majority_value (hits_of (baf_source paired rows boost) rg)) ranges).
+Proof. exact baf_majority_per_range. Qed.
+
+(* VariantArray.mirrored_baf(above_half=None) takes ONE direction for the WHOLE table *)
+Theorem C18_majority_direction_whole_table : forall paired rows boost,
+  let vals := if boost && paired then map (fun lr => boost_row (snd lr)) rows
+              else map (fun lr => g_freq (v_t (snd lr))) rows in
+  mirrored_baf paired rows None boost = map (mirror_x (majority_above (finite_of vals))) vals.
+Proof. exact mirrored_baf_whole_table. Qed.
+
+(* and the two differ: frequencies 1/5, 3/10 in one range and 7/10, 4/5 in the next give the per-range BAFs
+   1/4 and 3/4, while the whole table (median exactly 1/2) is mirrored below 1/2 throughout *)
+Theorem C18_majority_direction_differs :
+  baf_by_ranges false dir_rows [("chr1"%string, 0%Z, 50%Z); ("chr1"%string, 100%Z, 150%Z)] None false
+    = Some [Fin (1 # 4); Fin (3 # 4)] /\
+  mirrored_baf false dir_rows None false = [Fin (1 # 5); Fin (3 # 10); Fin (3 # 10); Fin (1 # 5)].
+Proof. exact majority_direction_witness. Qed.
+
+(* ---- C18_load_het_table ------------------------------------------------------------------------------------- *)
+
+(* everything load_het_snps does after the read, as one case analysis (Spec/Vcf.v load_het_table):
+   zygosity_freq in force = the one given, else 1/4 when a normal is there and all its genotypes are 0/0 or
+   missing; refused (AssertionError) unless 0 <= f <= 1/2; genotypes of sample AND normal recomputed from
+   the frequencies (below f -> 0, at or above 1 - f -> 1, else 1/2) BEFORE the somatic drop; paired: records
+   with a non-reference tumour and a reference normal dropped; the heterozygous subset (everything when it is
+   empty); TumorBoost on the kept rows, ValueError without a normal *)
+Theorem C18_load_het_table : forall paired zf boost rows,
+  load_het_core paired zf boost rows = load_het_table paired zf boost rows.
+Proof. exact load_het_core_table. Qed.
+
+(* load_het_snps = the reader with min_variant_depth, no FILTER test, SOMATIC-flagged records skipped; then the table *)
+Theorem C18_load_het_snps_table : forall h recs ssel nsel md zf boost,
+  load_het_snps h recs ssel nsel md zf boost =
+  match read_vcf h recs ssel nsel md false true with
+  | Fail e => Fail e
+  | Ok t => match load_het_table (t_paired t) zf boost (t_rows t) with
+            | Fail e => Fail e
+            | Ok rows => Ok {| ht_paired := t_paired t; ht_rows := rows |}
+            end
+  end.
+Proof. exact load_het_snps_table. Qed.
+
+Theorem C18_load_het_bad_freq : forall paired boost rows f,
+  ~ (0 <= f /\ f <= 1 # 2) -> load_het_core paired (Some f) boost rows = Fail "AssertionError"%string.
+Proof. exact load_het_bad_freq. Qed.
+
+(* the Mutect2 work-around: all normal genotypes 0/0 or missing = zygosity_freq 1/4 *)
+Theorem C18_load_het_auto_quarter : forall boost rows,
+  normal_all_ref rows = true ->
+  load_het_core true None boost rows = load_het_core true (Some (1 # 4)) boost rows.
+Proof. exact load_het_auto_quarter. Qed.
+
+Theorem C18_load_het_genotypes_kept : forall paired boost rows,
+  paired && normal_all_ref rows = false ->
+  load_het_core paired None boost rows = load_het_finish paired boost rows.
+Proof. exact load_het_genotypes_kept. Qed.
+
+Theorem C18_load_het_boost_unpaired : forall zf rows,
+  (forall f, zf = Some f -> 0 <= f /\ f <= 1 # 2) ->
+  load_het_core false zf true rows = Fail "ValueError"%string.
+Proof. exact load_het_boost_unpaired. Qed.
+
+(* zygosity is recomputed from the frequency BEFORE the T/N somatic drop: tumour 0/1, normal called 0/0 at
+   frequency 2/5 -- dropped as somatic by the genotypes, kept once zygosity_freq 1/4 makes the normal 1/2 *)
+Theorem C18_load_het_order :
+  match load_het_core true None false order_rows, load_het_core true (Some (1 # 4)) false order_rows with
+  | Ok a, Ok b => map fst a = [1%Z] /\ map fst b = [0%Z; 1%Z]
+  | _, _ => False
+  end.
+Proof. exact load_het_order_witness. Qed.
+
+(* min_variant_depth acts on the NORMAL's depth when a normal was chosen: every kept record reaches it *)
+Theorem C18_load_het_depth : forall h recs ssel nsel m zf boost t,
+  load_het_snps h recs ssel nsel (Some m) zf boost = Ok t -> m <> 0%Z ->
+  (exists lr, In lr (ht_rows t) /\ g_depth (v_t (snd lr)) <> 0%Z) ->
+  Forall (fun lr => (m <= filter_depth (snd lr))%Z) (ht_rows t).
+Proof. exact load_het_snps_depth. Qed.
+
+(* ---- the new hypotheses are satisfiable ------------------------------------------------------------------------ *)
+
+Example ex_boost_ieee_nan : boost_ieee (RFin 1) (RFin 1) = RNaN.
+Proof. vm_compute. reflexivity. Qed.
+
+Example ex_boost_ieee_inf : boost_ieee (RFin (3 # 2)) (RFin 1) = RPInf.
+Proof. vm_compute. reflexivity. Qed.
+
+Example ex_boost_range : boost_q (3 # 10) (2 # 5) = Fin (3 # 8).
+Proof. vm_compute. reflexivity. Qed.
+
+Example ex_fn_tumor_boost : Gen.FnVary.fn_tumor_boost (3 # 10) (2 # 5) == 3 # 8.
+Proof. vm_compute. reflexivity. Qed.
+
+Example ex_gen_mean :
+  baf_by_ranges_gen nanmean_x false dir_rows [("chr1"%string, 0%Z, 150%Z)] (Some true) false = Some [Fin (3 # 4)].
+Proof. vm_compute. reflexivity. Qed.
